@@ -3,7 +3,7 @@
 //   e     echo the first 2000 bytes of the text to this user (receive)
 //   t<j>  tell_object (user j, "[<me>><j>]\n")        (only if user j is still interactive)
 //   d<j>  destruct (user j)                           (only if user j is still interactive; j may be this user)
-//   x     error ()                                    n (or anything else)  nothing
+//   x     error ()  (contained by the safe_apply in receive_snoop)   n (or anything else)  nothing
 // do_flush calls the flush_messages() efun (with this object / without argument = every user)
 #include "/include/vcommon.h"
 string oid = "?";
